@@ -127,7 +127,7 @@ def case(ctx, rng, manylegs=False):
         a, b, axa, axb = gen.contractible_pair(sr, rng, sym, ferm, na=ncon + rng.randint(0, 2), nb=ncon + rng.randint(0, 2), ncon=ncon, values=vals, maxd=1, maxc=mc, minc=mc if rng.random() < 0.7 else 2, p_single=0.0, sparsity=rng.choice([0.0, 0.0, 0.2]))
         ctx.count("feature", "many-legs")
     else:
-        a, b, axa, axb = gen.contractible_pair(sr, rng, sym, ferm, maxnd=4 if rng.random() < 0.35 else 3, values=vals, maxd=2, p_ragged=0.1, p_hist=0.1)
+        a, b, axa, axb = gen.contractible_pair(sr, rng, sym, ferm, maxnd=4 if rng.random() < 0.35 else 3, values=vals, maxd=2, p_ragged=0.1, p_hist=0.1, p_mixclass=0.08)
         if any(dict(a.indices[i].chargemap) != dict(b.indices[j].chargemap) for i, j in zip(axa, axb)):
             ctx.count("feature", "contracted-legs-with-different-charge-lists")
     na = N(a, [f"c{axa.index(i)}" if i in axa else f"a{i}" for i in range(a.ndim)])
@@ -172,7 +172,16 @@ def case(ctx, rng, manylegs=False):
                 ctx.nontrivial(("mode", mode, sig))
         # --- pre-fuse the contracted legs
         if len(axa) >= 1:
-            o = ctx.call(sr.align_axes, a, b, (tuple(axa), tuple(axb)))
+            if rng.random() < 0.3:
+                import autoray as ar
+
+                o = ctx.call(lambda: ar.do("align_axes", a, b, (tuple(axa), tuple(axb))))
+                ctx.count("form", "align_axes-via-autoray")
+            elif rng.random() < 0.3:
+                o = ctx.call(lambda: a.align_axes(b, (tuple(axa), tuple(axb))))
+                ctx.count("form", "align_axes-method")
+            else:
+                o = ctx.call(sr.align_axes, a, b, (tuple(axa), tuple(axb)))
             if not o.ok:
                 raise Raised("align_axes", o)
             a2, b2 = o.value
